@@ -195,7 +195,14 @@ class _FuncInline(SiteRewriter):
             arg = self._visit_expr(arg, ctx)
             if isinstance(param.name, NamedId):
                 name = subst.get(param.name, param.name)
-                ctx.stmts.append(Assign(name, param.type, arg, e.loc))
+                bind: Stmt = Assign(name, param.type, arg, e.loc)
+                if ctx.is_ctx_expr and not isinstance(arg, Var):
+                    # the header of a `with` evaluates its arguments exactly;
+                    # bound ahead of the statement, a computed argument would
+                    # run under the ambient context (a name lookup rounds
+                    # nothing, so it needs no scope of its own)
+                    bind = ContextStmt(UnderscoreId(), ForeignVal(REAL, None), StmtBlock([bind]), e.loc)
+                ctx.stmts.append(bind)
 
         # bind the return value to a fresh variable and splice into the current block
         t = self.gensym.fresh('t')
